@@ -202,7 +202,9 @@ def gen_all(max_len):
         i = 0
         nrep = 0
         nseq = 0
-        for desc in spans.catalogue(max_len):
+        # (plus list spans in which None / False are labels like any other - single-label access only: as a slice bound
+        # None means "open", and pandas would turn a None label into NaN)
+        for desc in spans.catalogue(max_len) + [{'k': 'list', 'items': ['a', None, 1, False, 2.5][:m]} for m in (2, 3, 5)]:
             labs = spans.labels(desc)
             kind = 'model' if i % 4 == 3 else 'container'
             i += 1
@@ -226,7 +228,7 @@ def gen_all(max_len):
                             nrep += 1
                             yield {'span': desc, 'kind': kind, 'op': ('get-slice', 'set-slice')[nrep % 2], 'a': a, 'b': b, 's': s,
                                    'rep': [1 + nrep % 3]}
-            for lab in [spans.enc_label(x) for x in labs]:
+            for lab in [spans.enc_label(x) for x in labs if x is not None]:      # (None:None is the whole span)
                 for j, w in enumerate(('attribute', 'name-key', 'position', 'label', 'label-slice')):
                     yield {'span': desc, 'kind': kind, 'op': 'paths', 'label': lab, 'w': w}
                     if w in ('position', 'label', 'label-slice'):
